@@ -405,6 +405,9 @@ REAL_CASES = (
     ((("vars", "PHASE231"), ("vars", "PHASE150b")), ()),
     ((("vars", "PHASE231"), ("vars", "PHASE150b"), ("xvars@0.5", "PHASE150b")), ()),
     ((("left:e2", "2.002"), ("normal", "10.001"), ("extra@0.5", "1.001")), ()),
+    # the catalogued tandem arrangement (fused *13 next to a *1 copy) with two copies of the partner family
+    ((("left:i2", "13.001"), ("normal", "1.001"), ("extra", "1.002")), ()),
+    ((("left:i2", "13.001"), ("normal", "2.001"), ("extra", "1.002"), ("extra", "1.001")), ()),
 )
 
 CHECK = C10
